@@ -92,6 +92,10 @@ class Sched:
     self.lasso_rejected = set()
     self.lasso_stats = collections.Counter()
     self.delay = None                 # (thread role/name, loc predicate, remaining steps) single-delay injection
+    # injected virtual delay: {'match': f(ts, loc), 'visit': k, 'sleep': seconds}: the k-th time a thread reaches a matching
+    # yield point it sleeps that long in VIRTUAL time there (a delay at a hook that outlasts clock advances; the thread keeps
+    # whatever locks it holds, exactly as a descheduled OS thread would)
+    self.inject = None
 
   def _new(self, name):
     t = TS(name, len(self.threads))
@@ -282,6 +286,13 @@ class Sched:
           d['active'], d['ts'] = True, me
     if self.steps > self.max_steps:
       self.fail('step-budget')
+    inj = self.inject
+    if inj is not None and not inj.get('done') and loc is not None and inj['match'](me, loc):
+      inj['seen'] = inj.get('seen', 0) + 1
+      if inj['seen'] == inj['visit']:
+        inj['done'], inj['at'] = True, (loc, self.steps, self.clock)
+        self.wait_until(None, 'injected-delay', wake=self.clock + inj['sleep'])
+        return
     nxt = self.choose(me, True)
     if nxt is not me:
       self._switch(me, nxt, loc)
